@@ -134,13 +134,15 @@ def run(ctx):
         parse_calls = [pos for pos, bb, t in p.calls() if cname(t["func"]).endswith("::parse_from")]
         get_pos = [i for i, b in enumerate(p.blocks) if b in gets]
         if T.is_call(val, r"Value::<'a>::null$"):
-            ctx.ob("C17.override-not-consume", not get_pos and not parse_calls,
-                   "a NULL parameter consults long data or the inline parser", fn=nxt.path, construct="null-first", where=nxt.where(p.blocks[-1]), nontrivial=False)
+            # what counts is what is delivered and consumed: NULL, and no inline bytes eaten (a map lookup whose result is not used — e.g. the
+            # second component of `match (is_null, long_data.get(..))` — changes nothing)
+            ctx.ob("C17.override-not-consume", not parse_calls,
+                   "a NULL parameter consumes inline bytes", fn=nxt.path, construct="null-first", where=nxt.where(p.blocks[-1]), nontrivial=False)
             continue
         from_ld = T.contains(val, lambda x: T.is_call(x, r"HashMap::<K, V, S, A>::get$"))
-        # the NULL-bitmap test precedes the lookup
+        # the NULL-bitmap test is made on the path that delivers a value (before or after the pure lookup)
         null_test = False
-        for i, b in enumerate(p.blocks[: (get_pos[0] if get_pos else len(p.blocks))]):
+        for i, b in enumerate(p.blocks):
             t = nxt.term(b)
             if t["k"] == "switch":
                 # place-level (store-insensitive) view: which field is tested
